@@ -110,6 +110,7 @@ class Evaluator:
         self.calls_resolved = 0
         self.calls_unresolved = 0
         self.exact_terms: set = set()
+        self.loop_once = False  # see _exec_for_generic
 
     # ------------------------------------------------------------------ types
     def set_type(self, t: Term, typ: Any) -> Term:
@@ -441,7 +442,10 @@ class Evaluator:
         if isinstance(st, ast.Delete):
             s2 = state.fork()
             for t in st.targets:
-                if isinstance(t, ast.Subscript) and isinstance(t.value, ast.Name):
+                if isinstance(t, ast.Subscript) and isinstance(t.value, ast.Name) and t.value.id in s2.env:
+                    k = self.eval1(t.slice, s2, func)
+                    s2.env[t.value.id] = self._add_effect(s2.env[t.value.id], ("delitem", k))
+                elif isinstance(t, ast.Subscript) and isinstance(t.value, ast.Name):
                     s2.env[t.value.id] = unknown("del item", line)
             return [(s2, "fall", None, line)]
         if isinstance(st, ast.With):
@@ -741,6 +745,15 @@ class Evaluator:
         for name, alts in changed.items():
             oldv = before.get(name)
             acc = self._summarise_accumulation(name, oldv, alts, pat, it, line, bool(breaks))
+            if (acc is None or has_unknown(acc)) and self.loop_once and oldv is not None:
+                # relational abstraction (used only when BOTH sides of a comparison are evaluated this way): the state after ONE generic
+                # iteration -- a case distinction over the body's paths -- tagged with the collection the loop ranges over
+                val = oldv
+                for extra, newv in reversed(alts):
+                    c = self.mk_bool("and", list(extra)) if extra else TRUE
+                    val = newv if c == TRUE else ("ite", c, newv, val)
+                after.env[name] = ("after-iteration", val, pat, it)
+                continue
             if acc is None:
                 ok = False
                 after.env[name] = unknown(f"loop-carried:{name}", line)
